@@ -15,7 +15,7 @@
   state: `cloop_value` in `Props/C11.lean`) the same holds: `val_substCLoop`, `fire_substCLoop`.
 
   Both are instances of one development for `Def.substWith fs fc` (apply `fs` to stream operands and
-  `fc` to cell operands), all 30 constructors.
+  `fc` to cell operands), all 31 constructors.
 -/
 import SodiumVerif.Lemmas.SpecUnique
 import SodiumVerif.Lemmas.SpecCell
@@ -63,6 +63,7 @@ def Def.substWith (fs fc : Nat → Nat) : Def → Def
   | .sloop => .sloop
   | .cloop => .cloop
   | .route src sel k => .route (fs src) sel k
+  | .when s t => .when (fs s) (fs t)
 
 /-- replace every stream operand `l` by `t` (uses of a StreamLoop's stream) -/
 def Def.subst (l t : Nat) : Def → Def := Def.substWith (sub l t) id
@@ -287,6 +288,9 @@ theorem fireOf_substLoopWith (ev : Events) (look : Nat → Option (Option Int))
     | route src sel k =>
       rw [hd, Def.substWith] at hd'
       rw [fireOf_route _ _ _ _ hd, fireOf_route _ _ _ _ hd', hs]
+    | «when» a b =>
+      rw [hd, Def.substWith] at hd'
+      rw [fireOf_when _ _ _ _ hd, fireOf_when _ _ _ _ hd', hs, hs]
 
 end eqn
 
@@ -383,6 +387,12 @@ theorem operands_substWith {sp'' : Spec} {fs' fc' : Nat → Nat} {i : Nat}
     · exact ⟨a, by simp [operands, hd], Or.inr (Or.inl h)⟩
     · exact ⟨b, by simp [operands, hd], Or.inr (Or.inl h)⟩
   | orelse a b =>
+    rw [hd, Def.substWith] at hd'
+    simp only [operands, hd', List.mem_cons, List.not_mem_nil, or_false] at h
+    rcases h with h | h
+    · exact ⟨a, by simp [operands, hd], Or.inr (Or.inl h)⟩
+    · exact ⟨b, by simp [operands, hd], Or.inr (Or.inl h)⟩
+  | «when» a b =>
     rw [hd, Def.substWith] at hd'
     simp only [operands, hd', List.mem_cons, List.not_mem_nil, or_false] at h
     rcases h with h | h
